@@ -57,6 +57,11 @@ class DirectCollocation(SamplingMethod):
         self.degree = degree
         self.tau = collocation_points(degree, scheme)
         [self.C, self.D, self.B] = collocation_coeff(self.tau)
+        # Quadrature weights consistent with how the states are integrated:
+        # a quadrature state q with qdot=L(t) collocated like any other state ends at
+        # q0 + dt*sum_j B_j*L(t_j). Identical to collocation_coeff's B except for
+        # radau with degree 1, where the weight of the (dropped) node 0 is non-zero.
+        self.B = DM(np.linalg.solve(np.array(DM(self.C))[1:,:], np.array(DM(self.D))[1:])).T
         self.clean()
 
     def clean(self):
